@@ -204,6 +204,8 @@ def main(tier, seed):
                 for n in range(1, 7):
                     for K in range(1, n + 1):
                         items.append((a, b, alpha, K, n))
+    for (a, b, alpha, K, n) in ((0.01, 0.01, 1.0, 1, 60), (1.0, 1.0, 0.2, 30, 60), (3.0, 0.01, 7.0, 60, 60), (0.01, 3.0, 1e-3, 2, 500), (1.0, 1.0, 50.0, 17, 40)):
+        items.append((a, b, alpha, K, n))
     for r in pool_imap(sampler_case, items, chunksize=8):
         chk.transitions += r["n"]
         chk.traces_validated += r["n"]
